@@ -5,6 +5,7 @@ OUT ?= build/main
 CXX ?= g++
 SAN ?= -fsanitize=address,undefined -fno-sanitize-recover=undefined
 OPT ?= -O1
+STD ?= c++11
 COMMON = $(OPT) -g $(SAN) -fno-omit-frame-pointer -DEVENTPP_VERIF -I$(REPO)/include -MMD -MP -Wall -Wextra -Wno-unused-parameter -Wno-mismatched-new-delete
 
 CON_BINS = con_list con_queue
@@ -36,10 +37,10 @@ clean:
 define MULTI
 $$(OUT)/$(1).v%.o: engines/$(3).cpp
 	@mkdir -p $$(OUT)
-	$(4) -std=c++11 $$(COMMON) -DSEQ_VARIANT=$$* -DVERIF_SECONDARY_TU -c -o $$@ $$<
+	$(4) -std=$$(STD) $$(COMMON) -DSEQ_VARIANT=$$* -DVERIF_SECONDARY_TU -c -o $$@ $$<
 $$(OUT)/$(1).main.o: engines/$(3).cpp
 	@mkdir -p $$(OUT)
-	$(4) -std=c++11 $$(COMMON) -DSEQ_MAIN -c -o $$@ $$<
+	$(4) -std=$$(STD) $$(COMMON) -DSEQ_MAIN -c -o $$@ $$<
 $$(OUT)/$(1): $$(OUT)/$(1).main.o $$(addprefix $$(OUT)/$(1).v,$$(addsuffix .o,$(2)))
 	$(4) $$(SAN) -o $$@ $$^
 endef
